@@ -81,8 +81,8 @@ def gen_case(rng, rkind, pt_sub, sh_sub):
     for _ in range(int(rng.integers(0, 3))):
         if nl:
             pts[int(rng.integers(nl))] = None
-    lik = ["default", "named", "string", "nonunique"][int(rng.integers(4))]
-    rik = ["default", "named", "string"][int(rng.integers(3))]
+    lik = ["default", "named", "string", "nonunique", "range-offset", "range-step"][int(rng.integers(6))]
+    rik = ["default", "named", "string", "range-offset", "range-step"][int(rng.integers(5))]
     clash = bool(rng.random() < 0.6)
     how = ["inner", "left", "right"][int(rng.integers(3))]
     suffixes = [["left", "right"], ["l", "r"], ["A", "B"]][int(rng.integers(3))]
@@ -96,6 +96,10 @@ def make_idx(kind, n, seed, name):
     rng = np.random.default_rng(seed)
     if kind == "default":
         return pd.RangeIndex(n)
+    if kind == "range-offset":
+        return pd.RangeIndex(3, 3 + n)               # what df.iloc[3:] of a default frame carries
+    if kind == "range-step":
+        return pd.RangeIndex(0, 2 * n, 2)            # what df[::2] carries
     if kind == "named":
         return pd.Index(np.arange(n) * 2 + 7, name=name)
     if kind == "string":
